@@ -361,7 +361,7 @@ def main(R):
         R.broken.append("verification hook not active: tensordict.utils._verif_register_cache_checker did not register (TENSORDICT_VERIF=1?)")
         return
     procs = min(16, os.cpu_count() or 1)
-    nclean, ndirty, nlazy, nops = (90, 90, 30, 10) if R.quick else (900, 900, 300, 20)
+    nclean, ndirty, nlazy, nops = (90, 90, 30, 10) if R.quick else (700, 700, 250, 20)
     progs = []
     cdir = os.path.join(VERIF, "corpus", PID)
     if os.path.isdir(cdir):
